@@ -96,7 +96,11 @@ def run(a):
     checks = a.checks.split(",") if a.checks else [meta["property"]]
     rc, out = sh("git -C /repo status --porcelain")
     assert out.strip() == "", "/repo not clean: " + out
-    rc, out = sh("git -C /repo apply %s" % os.path.join(dst, "patch.diff"))
+    # a patch re-based on the current /repo (the original no longer applies after later commits) takes precedence
+    pf = os.path.join(dst, "patch_head.diff")
+    if not os.path.exists(pf):
+        pf = os.path.join(dst, "patch.diff")
+    rc, out = sh("git -C /repo apply %s" % pf)
     assert rc == 0, out
     try:
         for c in checks:
